@@ -371,6 +371,33 @@ def unit_helper_all_defaults(kind):
                      eps=[{"id": "A", "kind": "lit_arg", "n": 2, "values": ["10", "20"]}], sid=f"U/helper_all_defaults/{kind}", key=f"helper_all_defaults|{kind}")
 
 
+def unit_hash_in_string():
+    """the only edit is inside a string literal, after a '#' that is not a comment"""
+    return _scaffold([{"k": "const", "expr": "@A"}], eps=[{"id": "A", "kind": "lit_arg", "n": 2, "values": ["'report # 1'", "'report # 2'"]}],
+                     sid="U/hash_in_string", key="hash_in_string")
+
+
+def unit_none_result():
+    """kept functions whose (legitimate) result is None"""
+    sp = _scaffold([], eps=[{"id": "tag:S", "kind": "body_tag_sibling", "n": 2}], sid="U/none_result", key="none_result")
+    for f in sp["funcs"]:
+        if f["name"] in ("K", "Kd"):
+            f["returns_none"] = True
+    return sp
+
+
+def unit_path_object():
+    """one DDS path spelled as a string in one pipeline and as a pathlib.Path object in another; its first segment is the
+    name of a directory that is a symbolic link on this machine (/bin): DDS paths are names, the file system is not consulted"""
+    funcs = [{"name": "K", "module": "main", "params": [], "body": []},
+             {"name": "root", "module": "main", "params": [], "body": [{"k": "keep", "path": "/bin/vtm/k", "fn": "K", "args": []}]},
+             {"name": "root2", "module": "main", "params": [], "body": [{"k": "keep", "path": "/bin/vtm/k", "pathvar": "PV", "fn": "K", "args": []}]}]
+    return {"id": "U/path_object", "key": "path_object", "modules": ["main"], "no_assign": True,
+            "vars": [{"name": "PV", "module": "main", "values": ["pathlib.Path('/bin/vtm/k')"]}],
+            "funcs": funcs, "entries": {"eval_root": {"kind": "eval", "fn": "root"}, "eval_sub": {"kind": "eval", "fn": "root2"}},
+            "eps": [{"id": "tag:K", "kind": "body_tag", "n": 2}]}
+
+
 def unit_conditional_keep():
     """a keep written under 'if FLAG:' in the evaluated function: when FLAG is off the keep is analysed but not reached - its
     path must go on serving what it served"""
@@ -485,7 +512,7 @@ def unit_programs(level="quick"):
     out += [unit_same_path_twice(k) for k in ("lit", "same", "rt")]
     out += [unit_shadow(h) for h in SHADOWS]
     out += [unit_drop_helper(1), unit_drop_helper(2)]
-    out += [unit_helper_all_defaults("keeps"), unit_helper_all_defaults("returns"), unit_conditional_keep()]
+    out += [unit_helper_all_defaults("keeps"), unit_helper_all_defaults("returns"), unit_conditional_keep(), unit_hash_in_string(), unit_none_result()]
     out += [unit_shadow(h) for h in ("lambda_assigned", "nested_def_param")]
     out += [unit_shadow_and_use(h, w) for h in ("lambda_assigned", "nested_def_param", "listcomp") for w in ("var", "fn")]
     out += [unit_class_attr(), unit_local_import(), unit_inherited()]
@@ -494,6 +521,7 @@ def unit_programs(level="quick"):
     # the non-accepted module pipelog, which gives each of them an external dependency: here the dependent ones have none)
     base = unit_body_self() + [unit_body(p) for p in ("helper1", "helper2", "helper3", "method", "hof")] + [unit_var("int", "name", "helper2")]
     out += [_nolog(sp) for sp in base]
+    out += [_builtin_named(unit_body(p)) for p in ("helper1", "helper3", "hof")]
     # the same pipelines written with 'from dds import keep, load, data_function'
     for sp in unit_body_self()[:1] + [unit_body("helper2"), unit_var("int", "name", "direct"), unit_arg("lit_pos", "int"), unit_arg("rt_var")]:
         sp = copy.deepcopy(sp)
@@ -502,6 +530,18 @@ def unit_programs(level="quick"):
         sp["key"] += "|dds_names"
         out.append(sp)
     return out
+
+
+def _builtin_named(sp):
+    """the same program with helpers that are named like builtins (a user's own format / filter / input functions)"""
+    import json
+    txt = json.dumps(sp)
+    for a, b in (("h1", "format"), ("h2", "filter"), ("h3", "input")):
+        txt = txt.replace(f'"{a}"', f'"{b}"').replace(f'"tag:{a}"', f'"tag:{b}"')
+    sp = json.loads(txt)
+    sp["id"] += "/builtin_named"
+    sp["key"] += "|builtin_named"
+    return sp
 
 
 def _nolog(sp):
@@ -591,7 +631,7 @@ PATHSETS = [["/a", "/a2/b", "/c/d/e"], ["/c/d/e", "/c/d/f/g", "/cd/e"], ["/a/b/c
 
 def c04_programs():
     """three kept nodes under paths of 1-4 segments with shared directories; two roots keeping different subsets"""
-    out = [unit_conditional_keep()]
+    out = [unit_conditional_keep(), unit_path_object()]
     for pi, paths in enumerate(PATHSETS):
         for styles in (["datafn", "keep0", "keep0"], ["keep0", "datafn", "keeplit"]):
             for shape in ("fan", "chain"):
